@@ -506,6 +506,17 @@ func queryFace(face *font.Face, ld *ot.Loader, r *runner) {
 	if ld != nil {
 		r.do("RawTableTo", func() {
 			tags := ld.Tables()
+			// a damaged header may announce tens of thousands of tables (each within the file): the
+			// sweep is the harness's own repetition, so it is bounded — the allocation of ONE call
+			// is what must stay in proportion to the input (first, last and evenly spread tags)
+			const maxSweep = 48
+			if len(tags) > maxSweep {
+				picked := make([]ot.Tag, 0, maxSweep)
+				for i := 0; i < maxSweep; i++ {
+					picked = append(picked, tags[i*(len(tags)-1)/(maxSweep-1)])
+				}
+				tags = picked
+			}
 			sizes := map[ot.Tag]int{}
 			for _, tg := range tags {
 				b, _ := ld.RawTable(tg)
